@@ -21,8 +21,8 @@ RULE = ("Hypothesis generates directed graphs of 2-10 rules WITHOUT the DAG cons
         "Non-trivial = cyclic case whose cycle does not pass through the root or only exists through a "
         "dynamic edge, or an acyclic case with >= 4 rules executed in a history with an earlier build; "
         "distinct = sha1 of the case.")
-ASSUMPTIONS = ["after a build that failed with a cycle the engine is restarted (same database) before the next build; "
-               "same-engine continuation after a failed build is C05's subject"]
+ASSUMPTIONS = ["after a build that failed with a cycle the history continues either on a restarted engine (same "
+               "database) or on the same engine (generated)"]
 
 
 def budget(tier):
@@ -54,7 +54,7 @@ def graph_case(draw):
             ops.append({"op": "set", "key": draw(st.sampled_from(leaves)), "v": draw(st.integers(0, 5))})
         ops.append(draw(em.build_op(derived[-2:] * 2 + derived)))
     return {"db": draw(st.booleans()), "front": "cxx", "rules": rules, "init": init, "ops": ops,
-            "restart_after_failure": True}
+            "restart_after_failure": draw(st.booleans())}
 
 
 @st.composite
@@ -129,7 +129,7 @@ def scan_cycle_case(draw):
         ops.append({"op": "set", "key": flip, "v": 1 - rem + 2})
         ops.append(draw(em.build_op(chain)))
     return {"db": draw(st.booleans()), "front": "cxx", "rules": rules, "init": init, "ops": ops,
-            "restart_after_failure": True, "motif": "scan-cycle"}
+            "restart_after_failure": draw(st.booleans()), "motif": "scan-cycle"}
 
 
 def strategy(tier):
@@ -148,7 +148,8 @@ def expand_ops(case):
             try:
                 w.evaluate(op["key"])
             except em.Cycle:
-                out.append({"op": "restart"})
+                if case.get("restart_after_failure", True):
+                    out.append({"op": "restart"})
     c = dict(case)
     c["ops"] = out
     return c
@@ -272,4 +273,6 @@ def run_case(case, ctx, verbose=False):
         classes.append("cycle-through-scanning-rule")
     if info.get("single_only"):
         classes.append("cycle-only-through-single-use")
+    if info["cyclic"] and not case.get("restart_after_failure", True):
+        classes.append("same-engine-after-cycle")
     return Outcome(v, nontrivial=info["nontrivial"], classes=classes)
